@@ -691,3 +691,55 @@ Proof.
   intros H. rewrite (upd_path_app _ _ _ _ _ H). eapply upd_path_ext; [exact H|].
   cbn [upd_path]. now rewrite upd_nth_app_r.
 Qed.
+
+(* ------------------------------------------------------------------ Relation::remove, as a list function *)
+Definition relation_remove_cs (cs : list rtree) (i : nat) : res (list rtree) :=
+  let pre := firstn i cs in
+  let post := skipn (S i) cs in
+  if negb (existsb is_relation pre) then
+    match relation_remove_scan_next post with
+    | Ok k => Ok (pre ++ skipn k post)
+    | Panic n => Panic n
+    | Err e => Err e
+    | OutOfFuel => OutOfFuel
+    end
+  else Ok (firstn (i - relation_remove_scan_prev pre) pre ++ post).
+
+Lemma existsb_preR a : Forall relationish a -> a <> [] -> existsb is_relation (preR a) = true.
+Proof.
+  intros H Hne. destruct H as [|y r Hy Hr]; [congruence|].
+  unfold preR. rewrite join_relations_0. cbn [app existsb]. now rewrite (relationish_is_relation _ Hy).
+Qed.
+Lemma rev_preR_snoc a x : rev (preR (a ++ [x])) = t_space :: t_pipe :: t_space :: x :: rev (preR a).
+Proof. rewrite preR_snoc, rev_app_distr. reflexivity. Qed.
+
+Lemma relation_remove_cs_canon rs j : Forall relationish rs -> j < length rs ->
+  relation_remove_cs (join_relations fixed 0 rs) (4 * j) = Ok (join_relations fixed 0 (l_remove j rs)).
+Proof.
+  intros H Hj. destruct (list_split_at rs j Hj) as (a & x & b & -> & La).
+  apply Forall_app in H. destruct H as [Ha Hxb]. inversion Hxb as [|? ? Hx Hb]; subst.
+  rewrite join_relations_split. unfold relation_remove_cs, l_remove.
+  rewrite <- (preR_length a). rewrite firstn_app_len, skipn_S_app_len.
+  rewrite (preR_length a). rewrite firstn_app_len, skipn_S_app_len.
+  destruct (list_snoc_cases a) as [->|(a' & z & ->)].
+  - (* the first alternative *)
+    cbn [preR existsb negb app length Nat.mul].
+    destruct Hb as [|y b' Hy Hb']; [reflexivity|].
+    unfold relation_remove_scan_next. cbn [sepR flat_map app ws_prefix_len skipn].
+    change (ws_elem t_space) with true. change (ws_elem t_pipe) with false. cbn iota. cbn [skipn].
+    change (kind_is PIPE t_pipe) with true. cbn iota. cbn [ws_prefix_len].
+    change (ws_elem t_space) with true. cbn iota. rewrite (relationish_not_ws _ Hy).
+    cbn [Nat.add skipn]. now rewrite join_relations_0.
+  - (* a later one *)
+    rewrite existsb_preR by (auto; destruct a'; discriminate). cbn [negb].
+    apply Forall_app in Ha. destruct Ha as [Ha' Hz]. inversion Hz as [|? ? Hz' _]; subst.
+    unfold relation_remove_scan_prev. rewrite rev_preR_snoc.
+    cbn [ws_prefix_len skipn]. change (ws_elem t_space) with true. change (ws_elem t_pipe) with false. cbn iota.
+    cbn [skipn]. change (kind_is PIPE t_pipe) with true. cbn iota. cbn [ws_prefix_len].
+    change (ws_elem t_space) with true. cbn iota. rewrite (relationish_not_ws _ Hz'). cbn [Nat.add].
+    rewrite preR_snoc. rewrite app_length. cbn [length].
+    replace (4 * (length a' + 1) - 3) with (length (preR a' ++ [z])) by (rewrite app_length, preR_length; cbn [length]; lia).
+    replace (preR a' ++ [z; t_space; t_pipe; t_space]) with ((preR a' ++ [z]) ++ [t_space; t_pipe; t_space]) by (now rewrite <- app_assoc).
+    rewrite firstn_app_len. rewrite <- !app_assoc. cbn [app].
+    rewrite (join_relations_split a' z b). reflexivity.
+Qed.
